@@ -712,4 +712,19 @@ theorem render_boolFlag_inj (n : String) (c : Char) (hc : c ≠ ' ') (sv sv' : S
     simp [renderToolinfo, h'] at h
     cases v <;> cases w <;> simp_all <;> exact absurd h.symm hc
 
+/-! ## 6. the cache document -/
+
+theorem cachedErrors_append {I : Type} (a b : List (DocChild I)) : cachedErrors (a ++ b) = cachedErrors a ++ cachedErrors b := by
+  simp [cachedErrors, List.filterMap_append]
+
+theorem cachedErrors_errors {I : Type} (fs : List Finding) : cachedErrors (fs.map (DocChild.error (I := I))) = fs := by
+  induction fs with
+  | nil => rfl
+  | cons f r ih => simp only [List.map_cons, cachedErrors, List.filterMap_cons, DocChild.error?] at *; rw [ih]
+
+theorem cachedErrors_infos {I : Type} (is : List I) : cachedErrors (is.map (DocChild.fileInfo (I := I))) = [] := by
+  induction is with
+  | nil => rfl
+  | cons f r ih => simp only [List.map_cons, cachedErrors, List.filterMap_cons, DocChild.error?] at *; exact ih
+
 end Cppcheck.Cache
